@@ -139,6 +139,17 @@ func (e *encodeState) encode(v ugo.Object, opts encOpts) {
 	objectEncoder(v)(e, v, opts)
 }
 
+// encodeElem encodes v as an element of an array or a map. If v has no JSON
+// representation (see noopEncoder), null is written in its place so that the
+// enclosing document stays valid.
+func (e *encodeState) encodeElem(v ugo.Object, opts encOpts) {
+	n := e.Len()
+	e.encode(v, opts)
+	if e.Len() == n {
+		e.WriteString("null")
+	}
+}
+
 type encOpts struct {
 	// quoted causes primitive fields to be encoded inside JSON strings.
 	quoted bool
@@ -188,6 +199,8 @@ func invalidValueEncoder(e *encodeState, _ ugo.Object, _ encOpts) {
 	e.WriteString("null")
 }
 
+// noopEncoder is the encoder of objects that have no JSON representation
+// (functions, errors, ...): it writes nothing. See encodeElem.
 func noopEncoder(_ *encodeState, _ ugo.Object, _ encOpts) {}
 
 func optionsEncoder(e *encodeState, v ugo.Object, opts encOpts) {
@@ -346,7 +359,7 @@ func mapEncoder(e *encodeState, v ugo.Object, opts encOpts) {
 		}
 		e.string(kv, opts.escapeHTML)
 		e.WriteByte(':')
-		e.encode(m[kv], opts)
+		e.encodeElem(m[kv], opts)
 	}
 	e.WriteByte('}')
 	e.ptrLevel--
@@ -414,7 +427,7 @@ func arrayEncoder(e *encodeState, v ugo.Object, opts encOpts) {
 		if i > 0 {
 			e.WriteByte(',')
 		}
-		e.encode(arr[i], opts)
+		e.encodeElem(arr[i], opts)
 	}
 	e.WriteByte(']')
 	e.ptrLevel--
